@@ -2,6 +2,7 @@ package service
 
 import (
 	"encoding/json"
+	"sort"
 	"strings"
 
 	tmbytes "github.com/cometbft/cometbft/libs/bytes"
@@ -173,7 +174,14 @@ func EndBlocker(ctx sdk.Context, k keeper.Keeper) {
 	// handle the new request batch queue
 	k.IterateNewRequestBatch(ctx, ctx.BlockHeight(), newRequestBatchHandler)
 
-	for provider, requests := range providerRequests {
+	// emit the per-provider events in a fixed order: ranging over the map would order them differently on every node
+	providerKeys := make([]string, 0, len(providerRequests))
+	for provider := range providerRequests {
+		providerKeys = append(providerKeys, provider)
+	}
+	sort.Strings(providerKeys)
+	for _, provider := range providerKeys {
+		requests := providerRequests[provider]
 		requestsJSON, _ := json.Marshal(requests)
 		str := strings.Split(provider, ".")
 		if len(str) != 2 {
